@@ -1315,7 +1315,7 @@ class SyncManager(Runnable):
 
                 if ents:
                     conflict = ents[0]
-                    conflict.get_latest()
+                    conflict.get_latest(force=True)
                     if not conflict[LOCAL].needs_sync() and not conflict[REMOTE].needs_sync():
                         # file is up to date, we're replacing a known synced copy
                         try:
